@@ -12,8 +12,8 @@ cp "$out/demo/seed_demo.rs" tests/seed_demo.rs
 [ -d "$out/demo/tests" ] && cp -r "$out/demo/tests/." tests/ 2>/dev/null
 for d in "$out"/demo/*/ ; do b=$(basename "$d"); [ "$b" != tests ] && [ -d "$d" ] && cp -r "$d" tests/ ; done
 fa=""; [ -n "$feats" ] && fa="--features $feats"
-with=$(timeout 1200 cargo test --offline $fa --test seed_demo 2>&1 | grep -E "^test result|error(\[|:)" | head -3 | tr '\n' ' ')
+with=$(timeout 1200 cargo test --offline $fa --test seed_demo 2>&1 | grep -E "^test result|^error(\[|:)" | head -3 | tr '\n' ' ')
 git apply -R "$out/patch.diff"
-without=$(timeout 1200 cargo test --offline $fa --test seed_demo 2>&1 | grep -E "^test result|error(\[|:)" | head -3 | tr '\n' ' ')
+without=$(timeout 1200 cargo test --offline $fa --test seed_demo 2>&1 | grep -E "^test result|^error(\[|:)" | head -3 | tr '\n' ' ')
 echo "CONFIRM $id: suite with change: $suite | demo($feats) with change: $with | demo without change: $without"
 git checkout -q -- . ; git clean -fdq -- tests examples src 2>/dev/null
